@@ -33,7 +33,7 @@ class Decode(Part):
     rule = ("1-8 styled segments (C03 style space, ESC-free text with newlines) printed on a truecolor terminal console 1000 cells wide, then "
             "AnsiDecoder().decode(output): same characters per line and per character the same attributes-on, fg, bg, link; "
             "non-trivial = >= 2 differently styled runs on one line")
-    budget = {"quick": (4, 1500), "thorough": (16, 12000)}
+    budget = {"quick": (8, 1500), "thorough": (16, 12000)}
 
     def strategy(self, tier):
         seg = st.builds(lambda t, s: {"t": t, "s": s}, C03.seg_text(), st.one_of(st.none(), GS.style_spec(), GS.style_spec(), st.sampled_from(GS.PALETTE)))
@@ -154,7 +154,7 @@ class Proxy(Part):
             "sequences, empty writes, many newlines) interleaved with flush() at generated character boundaries; through FileProxy directly and through "
             "sys.stdout under a Live; the console output must decode to the same (char, attrs, fg, bg, link) sequence as the raw stream with one newline "
             "added per non-empty flush; non-trivial = a cut inside an escape sequence or a flush with a non-empty partial line")
-    budget = {"quick": (4, 1200), "thorough": (16, 10000)}
+    budget = {"quick": (8, 1200), "thorough": (16, 10000)}
 
     def strategy(self, tier):
         run = st.builds(lambda t, s, v: {"t": t, "s": s, "v": v}, run_text(), st.one_of(st.none(), st.none(), GS.style_spec(max_attrs=3), st.sampled_from(GS.PALETTE)), st.integers(0, 5))
